@@ -237,6 +237,54 @@ theorem spawn_post (f max mw : Nat) (script : List Outcome) (hf : 3 * script.len
   unfold spawn
   exact ((lTriple script.length).sound f _).1 (by simp [LS, LBase, lcRun]; omega)
 
+theorem lcFold_ok_mono (tr : List Ev) : ∀ st : LcSt, (tr.foldl lcStep st).ok = true → st.ok = true := by
+  induction tr with
+  | nil => intro st h; exact h
+  | cons e tr ih =>
+    intro st h
+    have h1 := ih _ h
+    cases hst : st.ok with
+    | true => rfl
+    | false =>
+      exfalso
+      cases e <;> simp only [lcStep] at h1 <;> (try split at h1) <;> (try split at h1) <;> simp_all
+
+theorem chainTarget_of_lc (tr : List Ev) : ∀ st : LcSt, (tr.foldl lcStep st).ok = true →
+    chainTargetOK st.cur tr = true := by
+  induction tr with
+  | nil => intro st _; rfl
+  | cons e tr ih =>
+    intro st h
+    have hok := lcFold_ok_mono tr _ h
+    have ht := ih _ h
+    cases e with
+    | producer n =>
+      simp only [lcStep] at hok ht
+      split at hok
+      · rename_i hc
+        rw [if_pos hc] at ht
+        simpa [chainTargetOK] using ht
+      · simp at hok
+    | recv inc m a b =>
+      simp only [lcStep] at hok ht
+      split at hok
+      · simp at hok
+      · rename_i hi
+        have hi' : inc = st.cur := by simpa using hi
+        have hc : (lcStep st (.recv inc m a b)).cur = st.cur := by
+          simp only [lcStep]; split
+          · rfl
+          · split <;> rfl
+        have ht' := ih _ h
+        rw [hc] at ht'
+        simp [chainTargetOK, hi', ht']
+    | _ => simpa [chainTargetOK, lcStep] using ht
+
+/-- C13 "the receiver last": every delivery ends at the current incarnation. -/
+theorem chain_target_ok (max mw : Nat) (script : List Outcome) (batches : List (List Msg)) :
+    chainTargetOK 0 (runHistory max mw script batches).1.trace = true :=
+  chainTarget_of_lc _ {} (lifecycle_ok max mw script batches)
+
 /-! ### C06: after the budget is exhausted -/
 
 theorem afterMaxOK_append (pre suf : List Ev) (h : Ev.ev .maxRestarts ∉ pre) :
